@@ -25,6 +25,7 @@ import (
 	"strings"
 	"sync"
 	"sync/atomic"
+	"syscall"
 	"testing"
 	"time"
 	_ "time/tzdata"
@@ -723,6 +724,8 @@ type worker struct {
 
 func startWorker() *worker {
 	cmd := exec.Command(os.Args[0], "-test.run", "^TestCheck$", "-test.timeout", "0")
+	// the worker must not outlive its driver (an orphan would burn CPU forever on a hanging input)
+	cmd.SysProcAttr = &syscall.SysProcAttr{Pdeathsig: syscall.SIGKILL}
 	cmd.Env = append(os.Environ(), "VERIF_C04_WORKER=1", "GOMAXPROCS=2")
 	cmd.Stderr = os.Stderr
 	in, err := cmd.StdinPipe()
